@@ -88,6 +88,7 @@ class Contract:
     def skolem_for(self, cfgname): return self.skolem_instances
     def spec_instances(self, c, idx): return []          # definitional axioms of the spec functions at index idx
     def extra_axioms(self, c): return []
+    def concrete_instances(self, c, D): return []       # full definitional closure of the spec functions for a concrete D (unrolled mode)
     def axioms(self, alg): return ()                    # quantified background axioms handed to every obligation of this function
     def spec_lemmas(self, c): return []                 # [(name, [assumptions], goal, [axioms])]: facts about the spec functions, proved on their own
     def cfg_assumptions(self, c, cfg): return []
@@ -207,6 +208,7 @@ def generate(contract, cfgname, registry, repo, D=None):
     c0 = mk()
     st.assume += list(contract.requires(c0)) + list(contract.cfg_assumptions(c0, cfgname)) + list(contract.extra_axioms(c0))
     for d in (range(D) if D is not None else (0,)): st.assume += list(contract.spec_instances(c0, z3.IntVal(d)))
+    if D is not None: st.assume += list(contract.concrete_instances(c0, D))
     st.pre = pre; st.names = names; st.ex = ex
     ret = ex.block(fn.body)
     retval = ret[1] if ret is not None else None
@@ -347,6 +349,10 @@ class Callee:
         sub2 = _SubCtx(ex, pre, pnames, bound, con)
         st.callee_log.append((con, sub2))                 # so that goals can instantiate the callee's spec definitions at their skolems
         st.assume += list(con.spec_instances(sub2, z3.IntVal(0)))      # order-0 definitions: needed for domain preconditions of later calls
+        Dc = ival(ex.D)
+        if Dc is not None:                                                 # unrolled mode: the callee's spec functions are fully unfolded
+            for d_ in range(1, Dc): st.assume += list(con.spec_instances(sub2, z3.IntVal(d_)))
+            st.assume += list(con.concrete_instances(sub2, Dc))
         st.assume += list(con.extra_axioms(sub2))
         for label, f in con.ensures(sub2): st.assume.append(f)
         sub2.assumed = True
